@@ -211,9 +211,9 @@ def targets(ctx):
             m = obtain(name, tree, case["source"], case.get("unknown", []), case.get("pos", []))
             equal = obtain(name, tree, case["source"], case.get("unknown", []), case.get("pos", []))
             set0 = is_set_vec(m)  # before anything reads the message
+            j0 = json_state(m)  # the JSON form before anything else (also of the harness) has looked inside the message
             sow0 = sow_vec(m)  # ... and before anything encodes it
             b0, s0 = state(m, mi)
-            j0 = json_state(m)
             eq0 = guard("eq_initial", lambda: m == equal)
             if eq0 is not True:
                 out.append(("equal_messages_not_equal", f"two messages obtained the same way compare {eq0!r}"))
